@@ -76,6 +76,11 @@ type URLCase struct {
 	Register bool   `json:"register,omitempty"`
 	Via      string `json:"via,omitempty"`
 	Stub     string `json:"stub,omitempty"`
+	// Scribble: once the parsed URL has been judged the caller changes it
+	// (adds parameters, a host parameter, renames digipeaters) the way an
+	// application prepares a URL for its next dial. What one call returned
+	// belongs to its caller: later parses must not see any of it.
+	Scribble bool `json:"scribble,omitempty"`
 }
 
 // Plan is one run of the dialer-registry engine.
